@@ -56,6 +56,8 @@ var (
 	watchdogDur = 120 * time.Second
 )
 
+var reDigits = regexp.MustCompile(`(0x)?[0-9a-f]*[0-9][0-9a-f]*`)
+
 // ---------------------------------------------------------------------------
 // alphabet
 
@@ -294,6 +296,7 @@ type violation struct {
 	What  string   `json:"what"`
 	Trace []string `json:"trace,omitempty"`
 	Cut   *cutRef  `json:"cut,omitempty"`
+	Log   []string `json:"effect_log,omitempty"` // the recorded file effects (paths relative to the store directory)
 }
 
 type cutRef struct {
@@ -354,7 +357,7 @@ func (r *runner) diagnose() {
 	}
 	for _, rec := range st.Recs {
 		switch {
-		case !rec.Cached && rec.DataSeq == 0:
+		case !rec.Cached && rec.Datpos == 0: // a stored record lies behind the 4-byte file header
 			r.diag = fmt.Sprintf("after %s the record of key %d has neither cached data nor a disk location (flags=%#x): the value is lost, the next access calls os.Exit(1)", r.curEv, rec.Key, rec.Flags)
 		case !rec.Cached && pend[rec.Key]:
 			r.diag = fmt.Sprintf("after %s the record of key %d is pending but its cached data was freed (flags=%#x): the next sync() dereferences nil", r.curEv, rec.Key, rec.Flags)
@@ -674,7 +677,7 @@ func replay(c cfg, hist []string, audit, force bool) (res result) {
 	}()
 	defer func() {
 		if p := recover(); p != nil {
-			msg := fmt.Sprint(p)
+			msg := reDigits.ReplaceAllString(fmt.Sprint(p), "N") // sizes and addresses out of the key
 			if len(msg) > 80 {
 				msg = msg[:80]
 			}
@@ -747,6 +750,7 @@ type crashStats struct {
 	Conformance   int            `json:"conformance_ok"`
 	RealKills     int            `json:"real_kills_ok"`
 	Outcomes      map[string]int `json:"outcomes"`
+	Where         map[string]int `json:"where"`
 	Viols         []*violation   `json:"viols,omitempty"`
 	HarnessErrors []string       `json:"harness_errors,omitempty"`
 }
@@ -876,6 +880,7 @@ func base(p string) string {
 // enumerates the crash points inside the last event (only = one specific cut).
 func crashRun(c cfg, hist []string, only *cutRef) (st crashStats) {
 	st.Outcomes = map[string]int{}
+	st.Where = map[string]int{}
 	basedir := ev.Scratch("c19c")
 	defer os.RemoveAll(basedir)
 	r := &runner{c: c, dir: filepath.Join(basedir, "db")}
@@ -926,6 +931,12 @@ func crashRun(c cfg, hist []string, only *cutRef) (st crashStats) {
 	cuts := crashfs.CutsFrom(log, from)
 	if only != nil {
 		cuts = []crashfs.Cut{{N: only.N, Torn: only.Torn}}
+	}
+	var logText []string
+	if rl, err := crashfs.Relativize(log, r.dir); err == nil {
+		for i, e := range rl {
+			logText = append(logText, fmt.Sprintf("%d: %v", i, e))
+		}
 	}
 	scratch := filepath.Join(basedir, "cuts")
 	os.MkdirAll(scratch, 0o770)
@@ -983,24 +994,25 @@ func crashRun(c cfg, hist []string, only *cutRef) (st crashStats) {
 		sig, _ := json.Marshal(allowed)
 		dh, _ := crashfs.DirHash(dir)
 		sk := c.Name + "|" + dh + "|" + string(sig)
-		if only == nil && crashSeen[sk] != "" {
-			st.DupSkipped++
-			if o := crashSeen[sk]; o != "ok" {
-				st.Outcomes[o+" (same directory and oracle as an earlier case)"]++
-			}
-			return false
-		}
 		// where: the effect just before the cut (or the torn one)
 		var where string
 		if cut.Torn > 0 {
 			where = fmt.Sprintf("torn=%s:%s", log[cut.N].Op, base(log[cut.N].Path))
-			if log[cut.N].Off == 0 {
+			if log[cut.N].Off == 0 && len(log[cut.N].Data) == 4 {
 				where += "@header"
 			}
 		} else if cut.N > 0 {
 			where = fmt.Sprintf("after=%s:%s", log[cut.N-1].Op, base(log[cut.N-1].Path))
 		} else {
 			where = "after=nothing"
+		}
+		st.Where[kindOf(lastEv)+"/"+where]++
+		if only == nil && crashSeen[sk] != "" {
+			st.DupSkipped++
+			if o := crashSeen[sk]; o != "ok" {
+				st.Outcomes[o+" (same directory and oracle as an earlier case)"]++
+			}
+			return false
 		}
 		fail := func(sym, f string, a ...interface{}) {
 			next := "end of the event"
@@ -1012,7 +1024,7 @@ func crashRun(c cfg, hist []string, only *cutRef) (st crashStats) {
 				Key: fmt.Sprintf("crash/%s/%s", where, sym),
 				What: fmt.Sprintf("history %v, process dies during %q at effect %d of %d (%s; next effect: %s): ", hist, lastEv, cut.N, len(log), where, next) +
 					fmt.Sprintf(f, a...),
-				Trace: hist, Cut: &cutRef{N: cut.N, Torn: cut.Torn, Desc: c.Desc}})
+				Trace: hist, Cut: &cutRef{N: cut.N, Torn: cut.Torn, Desc: c.Desc}, Log: logText})
 		}
 		st.Recoveries++
 		res := crashfs.Recover(dir, []string{"--cfg", string(cfgJSON)}, watchdogDur)
@@ -1117,6 +1129,13 @@ func crashRun(c cfg, hist []string, only *cutRef) (st crashStats) {
 		harness("enumeration: %v", err)
 	}
 	return
+}
+
+func kindOf(e string) string {
+	if i := strings.IndexAny(e, "0123456789:"); i > 0 {
+		return e[:i]
+	}
+	return e
 }
 
 func tail(b []byte, n int) string {
@@ -1306,6 +1325,9 @@ func (x *explorer) crashJob(c cfg, hist []string) {
 		for k, n := range cs.Outcomes {
 			x.crash.Outcomes[k] += n
 		}
+		for k, n := range cs.Where {
+			x.crash.Where[k] += n
+		}
 		cc := c
 		if i == 1 {
 			cc.Desc = !cc.Desc
@@ -1443,13 +1465,16 @@ func (x *explorer) exploreAll(cfgs []cfg, depth int, samples *ev.Samples) []*sea
 				if r.Doomed != "" {
 					x.doomed++
 					if _, done := doomedShown.LoadOrStore(s.c.Name, true); done {
-						continue
+						continue // not expanded: same diagnosis as a state already demonstrated to kill the process
 					}
 					rs := x.do(job{Cfg: s.c, Hist: s.frontier[it.fi].hist, Events: []string{r.Ev}, Force: true})
 					if len(rs) == 1 && rs[0].Viol != nil {
 						r.Viol = rs[0].Viol
 					} else {
-						ev.HarnessError("history %v (cfg %s): record diagnosed as damaged (%s) but the audit passes", h, s.c.Name, r.Doomed)
+						// the diagnosis has no observable consequence here: an ordinary state
+						fmt.Fprintf(os.Stderr, "note: history %v (cfg %s): record diagnosed as damaged (%s) but the audit passes\n", h, s.c.Name, r.Doomed)
+						doomedShown.Delete(s.c.Name)
+						x.doomed--
 					}
 				}
 				if r.Viol != nil {
@@ -1472,11 +1497,14 @@ func (x *explorer) exploreAll(cfgs []cfg, depth int, samples *ev.Samples) []*sea
 		// crash enumeration for the tree edges of this level that touched the disk
 		// (breadth-first order, interleaved over the configurations, capped)
 		nEligible := len(crashJobs)
-		if room := x.crashCap - x.crashJobs; len(crashJobs) > room {
+		// the pass's cap is shared out over the levels still to come (what a shallow
+		// level does not use is carried over), so that deep histories are enumerated too
+		room := (x.crashCap - x.crashJobs) / (depth - d)
+		if len(crashJobs) > room {
 			if room < 0 {
 				room = 0
 			}
-			// keep an even spread over the level instead of its head
+			// an even spread over the level (fixed stride), not its head
 			var pick []cj
 			for i := 0; i < room; i++ {
 				pick = append(pick, crashJobs[i*len(crashJobs)/room])
@@ -1622,18 +1650,30 @@ func main() {
 		fmt.Fprintln(ev.Out, "bench: per replay", time.Since(t0)/2000)
 		return
 	}
-	depth, crashCap := 4, 1500
-	r.Budget = 105 * time.Second
+	// passes: (menu, depth bound, cap on crash-enumerated histories)
+	type pass struct {
+		Menu     string `json:"menu"`
+		Depth    int    `json:"depth_bound"`
+		CrashCap int    `json:"crash_history_cap"`
+	}
+	passes := []pass{{"small", 4, 600}}
+	r.Budget = 110 * time.Second
 	if r.Thorough() {
-		depth, crashCap = 5, 20000
-		r.Budget = 17 * time.Minute
+		passes = []pass{{"full", 4, 2500}, {"small", 5, 2500}}
+		r.Budget = 18 * time.Minute
 	}
 	if d := os.Getenv("C19_DEPTH"); d != "" {
-		fmt.Sscan(strings.ReplaceAll(d, ",", " "), &depth, &crashCap)
+		p := pass{Menu: "small"}
+		fmt.Sscan(strings.ReplaceAll(d, ",", " "), &p.Depth, &p.CrashCap)
+		if m := os.Getenv("C19_MENU"); m != "" {
+			p.Menu = m
+		}
+		passes = []pass{p}
 	}
-	x := &explorer{run: r, menu: menu(r.Thorough()), evCnt: map[string]int64{}, violCnt: map[string]int{}, crashCap: crashCap,
-		pool: crashfs.NewPool(runtime.NumCPU(), []string{"--worker"}, []string{"GOGC=400", "GOMAXPROCS=2"}, watchdogDur)}
+	x := &explorer{run: r, evCnt: map[string]int64{}, violCnt: map[string]int{},
+		pool: crashfs.NewPool(runtime.NumCPU(), []string{"--worker"}, []string{"GOGC=400", "GOMAXPROCS=2"}, 2*watchdogDur)}
 	x.crash.Outcomes = map[string]int{}
+	x.crash.Where = map[string]int{}
 	samples := &ev.Samples{N: 4}
 	cfgs := allCfgs()
 	if only := os.Getenv("C19_CFG"); only != "" {
@@ -1645,7 +1685,30 @@ func main() {
 		}
 		cfgs = l
 	}
-	ss := x.exploreAll(cfgs, depth, samples)
+	per := map[string]interface{}{}
+	states, trans, exhaustive := 0, 0, true
+	var passInfo []interface{}
+	for _, p := range passes {
+		x.menu = menu(p.Menu == "full")
+		x.crashCap = x.crashJobs + p.CrashCap
+		ss := x.exploreAll(cfgs, p.Depth, samples)
+		pst, ptr, minDepth := 0, 0, p.Depth
+		for _, s := range ss {
+			per[p.Menu+"-menu/"+s.c.Name] = map[string]interface{}{"cfg": s.c, "states": s.st.States, "transitions": s.st.Trans, "depth_bound": p.Depth, "depth_completed": s.st.Depth, "new_states_per_depth": s.st.PerDepth}
+			pst += s.st.States
+			ptr += s.st.Trans
+			if s.st.Depth < minDepth && !s.dead {
+				minDepth = s.st.Depth
+			}
+		}
+		if minDepth < p.Depth {
+			exhaustive = false
+		}
+		states += pst
+		trans += ptr
+		passInfo = append(passInfo, map[string]interface{}{"menu": p.Menu, "events_in_menu": len(x.menu), "menu_events": x.menu, "depth_bound": p.Depth, "min_depth_completed": minDepth,
+			"states": pst, "transitions": ptr, "crash_history_cap": p.CrashCap})
+	}
 	x.pool.Close()
 	// crash violations: confirm each (new key) twice in this process, then report
 	crashSamples := &ev.Samples{N: 3}
@@ -1661,17 +1724,7 @@ func main() {
 			continue
 		}
 		r.Report(p.v.Key, fmt.Sprintf("[cfg %s, key order desc=%v] %s", p.c.Name, p.c.Desc, p.v.What),
-			map[string]interface{}{"cfg": p.c, "events": p.hist, "cut": p.v.Cut})
-	}
-	per := map[string]interface{}{}
-	states, trans, minDepth := 0, 0, depth
-	for _, s := range ss {
-		per[s.c.Name] = map[string]interface{}{"cfg": s.c, "states": s.st.States, "transitions": s.st.Trans, "depth_completed": s.st.Depth, "new_states_per_depth": s.st.PerDepth}
-		states += s.st.States
-		trans += s.st.Trans
-		if s.st.Depth < minDepth && !s.dead {
-			minDepth = s.st.Depth
-		}
+			map[string]interface{}{"cfg": p.c, "events": p.hist, "cut": p.v.Cut, "effect_log": p.v.Log})
 	}
 	distinct := 0
 	for _, n := range x.crash.Outcomes {
@@ -1685,10 +1738,8 @@ func main() {
 		"transitions":                          trans,
 		"traces_validated_against_impl":        trans,
 		"configurations":                       len(cfgs),
-		"events_in_menu":                       len(x.menu),
-		"depth_bound":                          depth,
-		"min_depth_completed":                  minDepth,
-		"per_configuration":                    per,
+		"passes":                               passInfo,
+		"per_pass_and_configuration":           per,
 		"transitions_per_event_kind":           x.evCnt,
 		"violating_histories_per_key":          x.violCnt,
 		"worker_processes_started":             x.pool.Spawned,
@@ -1701,8 +1752,9 @@ func main() {
 			"histories_crash_enumerated": x.crashJobs,
 			"histories_eligible":         x.crashEligible,
 			"histories_skipped_budget":   x.crashSkippedBudget,
-			"history_cap":                crashCap,
+			"history_cap":                x.crashCap,
 			"history_cap_hit":            x.crashCapHit,
+			"exhaustive":                 !x.crashCapHit && x.crashSkippedBudget == 0, // over the eligible histories of the explored depth
 			"effect_logs":                x.crash.Logs,
 			"effect_logs_reproducing_the_real_directory_byte_for_byte":     x.crash.Conformance,
 			"real_SIGKILLs_whose_directory_equals_the_materialised_prefix": x.crash.RealKills,
@@ -1710,8 +1762,9 @@ func main() {
 			"torn_write_crash_points": x.crash.Torn,
 			"evaluations":             x.crash.Recoveries,
 			"recoveries_skipped_same_directory_and_same_oracle": x.crash.DupSkipped,
-			"outcomes":            x.crash.Outcomes,
-			"distinct_nontrivial": distinct,
+			"outcomes": x.crash.Outcomes,
+			"crash_points_per_event_kind_and_position": x.crash.Where,
+			"distinct_nontrivial":                      distinct,
 			"rule": "a crash point is non-trivial when a fresh process reopened the materialised directory; distinct_nontrivial counts distinct outcome classes " +
 				"(ok / recovery died / value never written / synced value lost / post-recovery divergence / …); crash points are enumerated inside the last event of every " +
 				"history that discovered a new state and touched the disk (earlier events' crash points belong to the shorter histories), for both key orders of the sync/defrag loops",
@@ -1721,7 +1774,7 @@ func main() {
 			"after every event (Count after every event), followed by an audit of the reached state (Get all, BrowseAll, close+reopen, Get all, BrowseAll); " +
 			"state key = (model map, flags, pending set, durable map, NoSync, per-record data-file sequence / flags / cached, data-file and index sequence numbers, open files, defrag thresholds as booleans, directory listing)",
 	}
-	if minDepth < depth {
+	if !exhaustive {
 		cov["exhaustive"] = false
 	}
 	r.Finish(cov, []string{
